@@ -33,7 +33,7 @@ struct Prog {
   uint32_t prio       = 0;
   uint32_t owner      = 0;
   uint16_t pushBefore = 0;
-  uint16_t allocBytes = 0;
+  uint32_t allocBytes = 0;
   uint8_t vaborts     = 0;
   uint8_t nn          = 0;
   uint8_t delayKind   = 0; // 0 none, 1 busy (short), 2 sleep, 3 busy (long)
@@ -118,6 +118,7 @@ struct Case {
   Viol viols[12];
   std::atomic<uint64_t> maxSinceCommit{0};
   bool recordLevels = false; // C08: start/commit tickets per item
+  bool anyPrioChildren = false; // barrier worklists: children at any priority, also more urgent than the level being run (C01 only)
   bool deterministic = false; // C07: cautious operator for worklists::Deterministic (cautiousPoint after the acquires)
   bool dynamicPush   = false; // C07: which children are pushed depends on the state read at the commit point
 
